@@ -1,6 +1,6 @@
 #!/bin/bash
 # run every thorough check in turn, report exit code and time (used through `vp run`)
-for p in C17 C19 C18 C10 C12 C06 C13 C14 C15 C16 C08 C09 C07 C02 C11 C05 C20 C01 C03 C04; do
+for p in ${THOROUGH_ORDER:-C11 C05 C20 C01 C03 C04 C09 C17 C19 C18 C10 C12 C06 C13 C14 C15 C16 C08 C07 C02}; do
   s=$(date +%s); out=$(./check $p --tier thorough 2>&1); rc=$?; e=$(date +%s)
   echo "$p thorough exit=$rc time=$((e-s))s :: $(echo "$out" | tail -1 | cut -c1-200)"
   echo "$out" | grep -m3 "reason:\|TOOL-ERROR" | cut -c1-300
